@@ -713,7 +713,16 @@ impl<Front: SocketHandler> ConnectionH1<Front> {
                                 ..
                             }
                         );
-                    if stream.context.keep_alive_frontend && !close_delimited {
+                    // The backend may answer before the request was received in
+                    // full (early 4xx, or any response to an upload it does not
+                    // read). The rest of the declared body is then still coming on
+                    // this connection: reusing the slot would parse those body
+                    // bytes as the next request and forward them to a backend
+                    // (request smuggling). A server that does not read a request to
+                    // its end cannot keep the connection (RFC 9112 §9.3): close it.
+                    let request_unfinished = !stream.front.is_terminated();
+                    if stream.context.keep_alive_frontend && !close_delimited && !request_unfinished
+                    {
                         self.timeout_container.reset();
                         if let StreamState::Linked(token) = old_state {
                             endpoint.end_stream(token, stream_id, context);
